@@ -324,6 +324,7 @@ def shard(i: int, n: int, tier: str, seed: int) -> Result:
             if len(res.samples) < 3 and compound:
                 res.sample({'skeleton': text, 'input_combinations': len(combos)})
         genprog.unload(mod)
+        genprog.drop_caches()
         batch.clear()
 
     with genrun.Scratch(prefix='vf-c15-') as work:
